@@ -35,7 +35,7 @@ def tSpan (segs : List (Seg α)) : Option (α × α) :=
 
 /-- the membership test of one segment -/
 def hit (t : α) (s : Seg α) : Bool :=
-  decide (inSeg t (segLeft s.xold s.h) (segRight s.xold s.h) (tol (segLeft s.xold s.h)) (tol (segRight s.xold s.h)))
+  decide (inSeg t (segLeft s.xold s.h) (segRight s.xold s.h) (segTol (tol (segLeft s.xold s.h)) (tol (segRight s.xold s.h))))
 
 /-- exact containment in the closed interval of one segment -/
 def hitExact (t : α) (s : Seg α) : Bool :=
@@ -74,7 +74,7 @@ def sol (cs : Option (List (Seg α))) (t : α) : Res :=
     match tSpan segs with
     | none => .notEnabled
     | some (start, e) =>
-      if outside t (spanLo start e) (spanHi start e) (tol (spanLo start e)) (tol (spanHi start e)) then .outOfRange
+      if outside t (spanLo start e) (spanHi start e) (segTol (tol (spanLo start e)) (tol (spanHi start e))) then .outOfRange
       else match findSeg segs t with
         | some s => .ok s.id
         | none => .outOfRange
@@ -83,7 +83,8 @@ inductive ManyRes where
   | ok (ids : List Nat)
   | outOfRange
   | notEnabled
-  /-- `opt.unwrap()` on a point inside the range test that no segment contains -/
+  /-- not an outcome of the code any more (it was `opt.unwrap()` on a point inside the range test that no segment contains;
+      such a point is OutOfRange now); kept so that the driver's vocabulary is unchanged -/
   | panic
 deriving DecidableEq, Repr
 
@@ -95,10 +96,10 @@ def solMany (cs : Option (List (Seg α))) (ts : List α) : ManyRes :=
     match tSpan segs with
     | none => .notEnabled
     | some (start, e) =>
-      if ts.any (fun t => decide (outside t (spanLo start e) (spanHi start e) (tol (spanLo start e)) (tol (spanHi start e)))) then .outOfRange
+      if ts.any (fun t => decide (outside t (spanLo start e) (spanHi start e) (segTol (tol (spanLo start e)) (tol (spanHi start e))))) then .outOfRange
       else match ts.mapM (fun t => (findSeg segs t).map (·.id)) with
         | some ids => .ok ids
-        | none => .panic
+        | none => .outOfRange
 
 /-- `Solution::sol_span` -/
 def solSpan (cs : Option (List (Seg α))) : Option (α × α) :=
